@@ -59,7 +59,7 @@ LateEnterK(k) == \E h \in H : shpc[h] = "returned" /\ shres[h] = "ok" /\ k \in G
 ServerFair == \/ \E p \in P : StBody(p) \/ StErrReturn(p) \/ ServeStep(p)
               \/ \E c \in C : WorkerFair(c)
               \/ \E k \in K : PacketStep(k)
-              \/ \E h \in H : ShCloseL(h) \/ (\E c \in C : ShKick(h, c)) \/ ShUnlock(h) \/ ShCapture(h) \/ ShWake(h) \/ ShClosePC(h)
+              \/ \E h \in H : ShKickPC(h) \/ ShCloseL(h) \/ (\E c \in C : ShKick(h, c)) \/ ShUnlock(h) \/ ShCapture(h) \/ ShWake(h) \/ ShClosePC(h)
 
 -----------------------------------------------------------------------------
 (* composites and trace-only steps                                           *)
@@ -80,6 +80,7 @@ ResetAll ==
   /\ started' = FALSE /\ lock' = NoLock /\ gen' = 0 /\ closed' = {} /\ conns' = {}
   /\ lsnField' = IF Mode = "tcp" THEN 1 ELSE 0      \* the harness assigned listener 1 before the first call
   /\ cfgBad' = FALSE
+  /\ pcField' = (Mode = "pc")                        \* srv.PacketConn # nil
   /\ lsnOpen' = [ll \in Lsn |-> TRUE] /\ pend' = [ll \in Lsn |-> {}]
   /\ pcOpen' = TRUE /\ pcDL' = "none" /\ pin' = 0
   /\ spc' = [p \in P |-> "idle"] /\ sgen' = [p \in P |-> 0] /\ sres' = [p \in P |-> "-"]
@@ -89,7 +90,7 @@ ResetAll ==
   /\ copen' = [c \in C |-> TRUE] /\ hrep' = [c \in C |-> FALSE] /\ hclosed' = [c \in C |-> FALSE]
   /\ kpc' = [k \in K |-> "none"] /\ kown' = [k \in K |-> 0] /\ nread' = 0
   /\ shpc' = [h \in H |-> "idle"] /\ shres' = [h \in H |-> "-"] /\ shgen' = [h \in H |-> 0]
-  /\ capt' = [h \in H |-> 0] /\ kick' = [h \in H |-> {}] /\ shseen' = [h \in H |-> {}]
+  /\ capt' = [h \in H |-> 0] /\ kick' = [h \in H |-> {}] /\ shseen' = [h \in H |-> {}] /\ shtodo' = [h \in H |-> {}]
   /\ cst' = [c \in C |-> "new"] /\ csent' = [c \in C |-> 0] /\ inbox' = [c \in C |-> 0] /\ psent' = 0
   /\ replyLost' = FALSE /\ crashed' = "-" /\ act' = <<>>
 
@@ -102,7 +103,7 @@ StFailedAll(p) ==                 \* a start that failed before serving: StLock,
   /\ spc' = [spc EXCEPT ![p] = "returned"]
   /\ sres' = [sres EXCEPT ![p] = "fail"]
   /\ sbad' = [sbad EXCEPT ![p] = p \in badCall]
-  /\ UNCHANGED <<started, lock, closed, lsnField, cfgBad, transp, sgen, wg, scur, serr, slsn, wvars, kvars, shvars, cvars, hist, act>>
+  /\ UNCHANGED <<started, lock, closed, lsnField, cfgBad, pcField, transp, sgen, wg, scur, serr, slsn, wvars, kvars, shvars, cvars, hist, act>>
 
 StRefusedAll(p) ==                \* StLock, StBody (refused), StErrReturn: one lock hold, reported from inside it;
   /\ spc[p] = "idle" /\ Free /\ started    \* the harness logs the return only later
@@ -117,6 +118,9 @@ EventStep ==
         CASE Ev.res = "already" -> spc[Ev.p] = "returned" /\ sres[Ev.p] = "already" /\ Same
           [] Ev.res = "fail"    -> StFailedAll(Ev.p)
           [] OTHER              -> SReturn(Ev.p) /\ sres[Ev.p] = Ev.res
+  \/ Is("h.sparepc")      /\ HSparePC
+  \/ Is("h.sparelsn")     /\ HSpareLsn(Ev.l)
+  \/ Is("h.clearpc")      /\ HClearPC
   \/ Is("h.break")        /\ HBreak
   \/ Is("h.fix")          /\ HFix
   \/ Is("s.isstarted")    /\ Ev.p \in P /\ (Ev.v = 1) = started /\ (SCheck(Ev.p) \/ SErrCheck(Ev.p))
@@ -147,10 +151,10 @@ EventStep ==
   \/ Is("serve.chanclosed") /\ Ev.p \in P /\ Ev.p \notin early /\ gen \notin closed /\ SCloseChan(Ev.p)
   \/ Is("shutdown.begin")   /\ Ev.h \in H /\ started /\ ShBegin(Ev.h)
   \/ Is("shutdown.refused") /\ Ev.h \in H /\ ~started /\ ShBegin(Ev.h)
-  \/ Is("lsn.close")      /\ IF Ev.h # 0 THEN Ev.h \in H /\ Mode = "tcp" /\ lsnField = Ev.l /\ ShCloseL(Ev.h)
+  \/ Is("lsn.close")      /\ IF Ev.h # 0 THEN Ev.h \in H /\ lsnField = Ev.l /\ ShCloseL(Ev.h)
                              ELSE Ev.p \in P /\ slsn[Ev.p] = Ev.l /\ TransportClosedByServe(Ev.p)
   \/ Is("pc.setdl")       /\
-        CASE Ev.res = "past"   -> Ev.h \in H /\ Mode = "pc" /\ ShCloseL(Ev.h)
+        CASE Ev.res = "past"   -> Ev.h \in H /\ ShKickPC(Ev.h)
           [] Ev.res = "future" -> Ev.p \in P /\ spc[Ev.p] = "rdl" /\ started /\ Free /\ Same
           [] OTHER -> FALSE
   \/ Is("pc.read")        /\ Ev.p \in P /\
@@ -171,7 +175,7 @@ Silent ==
                      \/ Is("quiescent")
                      \/ ((Is("shutdown.returned") \/ Is("pc.close")) /\ Ev.h = h)
                   /\ ShCapture(h)
-  \/ /\ (Is("shutdown.returned") /\ Mode = "tcp") \/ (Is("pc.close") /\ Mode = "pc")
+  \/ /\ (Is("shutdown.returned") /\ ~HasPC) \/ (Is("pc.close") /\ HasPC)
      /\ Ev.h \in H
      /\ ShWake(Ev.h) \/ (Ev.h \in ctxExp /\ ShCtx(Ev.h))
   \/ \E p \in P : /\ Mode = "pc" /\ spc[p] = "got"
@@ -183,7 +187,7 @@ Silent ==
   \/ /\ Loose /\ Mode = "pc"
      /\ \/ \E p \in P : UReadOk(p) \/ USpawn(p)                                   \* any time
         \/ Is("s.isstarted") /\ Ev.p \in P /\ UReadErr(Ev.p)                       \* a failed read shows in the re-check
-        \/ Is("shutdown.unlock") /\ Ev.h \in H /\ ShCloseL(Ev.h)                   \* the deadline move, lock held
+        \/ (Is("shutdown.unlock") \/ Is("lsn.close")) /\ Ev.h \in H /\ ShKickPC(Ev.h)  \* the deadline move, lock held
         \/ Is("shutdown.returned") /\ Ev.h \in H /\
               (ShWake(Ev.h) \/ (Ev.h \in ctxExp /\ ShCtx(Ev.h)) \/ ShClosePC(Ev.h))
 
